@@ -203,3 +203,35 @@ Proof.
   erewrite (runs_fold _ prod); [reflexivity|].
   intros i acc it k. cbv beta iota zeta. repeat f_equal; lia.
 Qed.
+
+(* ---- batch_run: the serial loop and the handling of what imap_unordered yields ---- *)
+Lemma fold_extend {R X : Type} (process : X -> list R) l : forall acc,
+  fold_left (fun acc x => acc ++ process x) l acc = acc ++ flat_map process l.
+Proof.
+  induction l as [|x t IH]; intros acc; simpl; [rewrite app_nil_r; reflexivity|]. rewrite IH, app_assoc. reflexivity.
+Qed.
+Lemma fold_extend_map {R X : Type} (process : X -> list R) l : forall acc,
+  fold_left (fun acc d => acc ++ d) (map process l) acc = acc ++ flat_map process l.
+Proof.
+  induction l as [|x t IH]; intros acc; simpl; [rewrite app_nil_r; reflexivity|]. rewrite IH, app_assoc. reflexivity.
+Qed.
+
+(* `order` = the runs in the order in which imap_unordered delivers their results (external outcome) *)
+Lemma batch_results_bridge {R X : Type} (process : X -> list R) n runs order :
+  gen_batch_results process n runs order = if n =? 1 then flat_map process runs else flat_map process order.
+Proof.
+  unfold gen_batch_results. rewrite fold_extend, fold_extend_map. simpl.
+  match goal with |- (if ?a then _ else _) = (if ?b then _ else _) => destruct a eqn:E1; destruct b eqn:E2 end;
+    try reflexivity; exfalso; lia.
+Qed.
+
+Lemma results_eq_by_hand max_steps period n runs order :
+  Permutation order runs ->
+  Permutation (gen_batch_results (run_rows max_steps period) n runs order)
+              (flat_map (rows_by_hand max_steps period) runs).
+Proof.
+  intros Hp. rewrite batch_results_bridge.
+  destruct (n =? 1).
+  - apply (eq_by_hand max_steps period runs runs (Permutation_refl runs)).
+  - apply (eq_by_hand max_steps period runs order Hp).
+Qed.
